@@ -52,9 +52,7 @@ func (r hashConv) ToHash() (fields map[string]string) {
 	for k, f := range r.factory.fields {
 		ref := r.entity.Field(f.idx)
 		if f.conv.ValueToString == nil {
-			if bs, err := json.Marshal(ref.Interface()); err == nil {
-				fields[k] = rueidis.BinaryString(bs)
-			}
+			fields[k] = rueidis.JSON(ref.Interface()) // panics like JSONRepository does, instead of saving without the field
 		} else if v, ok := f.conv.ValueToString(ref); ok {
 			fields[k] = v
 		}
